@@ -335,14 +335,14 @@ def run(ctx):
     for h in r["samples"][:: max(1, len(r["samples"]) // 8)][:8]:
         ctx.sample({"history_reaching_a_distinct_state": [list(e) for e in h]})
     ctx.coverage = {
-        "states": r["states"], "transitions": r["transitions"], "traces_validated_against_impl": r["transitions"],
+        "states": r["states"], "transitions": r["transitions"], "traces_validated_against_impl": r["lookups"],
         "exhaustive": True, "depth_bound": depth, "max_depth_reached": r["maxdepth"], "events": len(events(ctx.tier)), "lookups_checked": r["lookups"],
         "distinct_lookup_outcomes": len(r["outcomes"]),
         "rule": "breadth-first search over event histories on fresh BackendRegistry objects; events: register / register_on_import (healthy or failing factory) / "
                 "module import / get(object|name|unknown name|None|42, tensor tuple) / get_by_name / enter / exit; states deduplicated by every field of "
                 "registry.state plus fake modules; every lookup event checked against the reference precedence function of the logical configuration",
     }
-    ctx.assumptions = ["every transition is executed on the real BackendRegistry (no separate model), so traces_validated_against_impl = transitions",
+    ctx.assumptions = ["every transition is executed on the real BackendRegistry (no separate model); traces_validated_against_impl counts the histories whose final lookup was compared with the reference",
                        "synthetic backends accept disjoint tensor types per framework like the real ones; configurations with duplicate backend names are outside the quantifier",
                        "canonical state keeps every field of registry.state, so merged states have the same futures"]
 
